@@ -84,6 +84,8 @@ def correspondence(ctx):
     ctx.sample({"case": lines[3], "impl": impl.get("s3"), "model": model.get("s3")})
     r, _ = core.run_impl(["b builtin"])
     ctx.builtin = r.get("b")
+    r2, _ = core.run_impl(["b builtin used"])       # the same in a process that has already used the package for other things
+    ctx.builtin_used = r2.get("b")
     ctx.evaluations += 1
     ctx.nontrivial.add("builtin")
     ctx.sample({"builtin": (ctx.builtin or "")[:600]})
@@ -141,15 +143,22 @@ def oracle(ctx, deep):
             worst = sorted(counts.items(), key=lambda kv: kv[1])
             ctx.violations.append({"preset": name, "line": "complete cell of " + name, "finding_key": "C16-preset-uniform",
                                    "what": "over the complete cell of %s the documented values are not returned equally often: %r ... %r" % (name, worst[0], worst[-1])})
-    # builtins
-    b = getattr(ctx, "builtin", None)
+    # builtins: in a fresh process, and in a process that has already used the package for other things
+    for b, line, label in ((getattr(ctx, "builtin", None), "builtin", ""), (getattr(ctx, "builtin_used", None), "builtin used", " (after the package was used for other recipes, lists and presets)")):
+        judge_builtin(ctx, b, line, label)
+        if ctx.violations:
+            return
+
+
+def judge_builtin(ctx, b, line, label):
     if b is None or not b.startswith("ok "):
-        ctx.violations.append({"line": "builtin", "finding_key": "C16-builtin", "what": "reading the built-ins failed: %r" % (b,)})
+        ctx.violations.append({"line": line, "finding_key": "C16-builtin", "what": "reading the built-ins failed%s: %r" % (label, b)})
         return
     kv = dict(t.split("=", 1) for t in b.split(" ")[1:] if "=" in t and not t.startswith(("stdout=", "stderr=")))
+
     def need(key, want, what):
         if kv.get(key) != want:
-            ctx.violations.append({"line": "builtin", "finding_key": "C16-builtin", "what": "%s: built package has %r, documented %r" % (what, kv.get(key), want)})
+            ctx.violations.append({"line": line, "finding_key": "C16-builtin", "what": "%s%s: built package has %r, documented %r" % (what, label, kv.get(key), want)})
     for f, s in DOC_CLASSES.items():
         need("class%d" % f, core.hx("".join(sorted(s))), "character class %d" % f)
     need("class3", core.hx("".join(sorted(DOC_CLASSES[1] + DOC_CLASSES[2]))), "Letters")
@@ -169,7 +178,7 @@ def oracle(ctx, deep):
         need(key, "%d,%s" % (n, dig), "exported list vs testdata/%s" % fname)
         need(key + "_after_use", "%d,%s" % (n, dig), "exported list vs testdata/%s after the slice was handed to NewWordList and used" % fname)
         if len(set(lines)) != len(lines) or any((not w) or (not w.isascii()) or (not w.islower()) or (not w.isalpha()) for w in lines):
-            ctx.violations.append({"line": "builtin", "finding_key": "C16-list", "what": "testdata/%s is not duplicate-free lower-case a-z" % fname})
+            ctx.violations.append({"line": line, "finding_key": "C16-list", "what": "testdata/%s is not duplicate-free lower-case a-z" % fname})
 
 
 def replay(v):
